@@ -95,7 +95,7 @@ impl Property for C10 {
             },
             Phase::Random {
                 name: "long-histories",
-                cases: tier.pick(300, 4_000),
+                cases: tier.pick(300, 10_000),
                 strat: Arc::new(move || {
                     let st = starts.as_ref().clone();
                     (proptest::sample::select(st), proptest::collection::vec(prop_oneof![6 => op_cheap(), 1 => Just(Op::Sign(1)), 2 => proptest::sample::select(vec![0u8, 2, 3]).prop_map(Op::SignNow)], 4..9)).prop_map(|(start, ops)| C10Case { start, ops, sweep: 0, sweep_key: 0, sweep_t0: 0 }).boxed()
@@ -103,7 +103,7 @@ impl Property for C10 {
             },
             Phase::Enumerate {
                 name: "signature-value-sweep",
-                total: tier.pick(64, 640),
+                total: tier.pick(64, 2_000),
                 exhaustive: false,
                 gen: {
                     let st = self.starts.clone();
